@@ -60,3 +60,11 @@ MUTANTS += [
     ("c10-eq-consults-memo", "C10", B + "unary_expression.py", "return (other.__class__ == self.__class__) and (other._inner == self._inner)", "return (other.__class__ == self.__class__) and (other._inner == self._inner) and (other._value == self._value)", "frame-analysis", True),
     ("c10-constructor-aliases-caller-list", "C10", B + "n_ary_expression.py", "        self._inners = list(args)", "        self._inners = args", "", False),
 ]
+
+MUTANTS += [
+    ("c18-inners-from-set", "C18", B + "n_ary_expression.py", "        self._inners = list(args)", "        self._inners = list(set(args))", "order-analysis", True),
+    ("c18-join-over-set", "C18", P + "differential.py", "        return f\"Differential({self._original_expression})\"", "        return f\"Differential({self._original_expression})\" + \", \".join(self._original_expression._variable_names)[:0]", "order-analysis", True),
+    ("c18-order-sensitive-loop", "C18", P + "accumulators.py", "        results = {}\n        for variable_name in variable_names:\n            results[variable_name] = self._numeric_partials.get(variable_name, 0)\n        return results", "        results = {}\n        total = 0\n        for variable_name in variable_names:\n            total = total + self._numeric_partials.get(variable_name, 0)\n            results[variable_name] = self._numeric_partials.get(variable_name, 0) + 0 * total\n        return results", "order-analysis", True),
+    ("c18-hash-leaks", "C18", P + "partial.py", "        return hash((\"Partial\", self._original_expression))", "        return hash((\"Partial\", self._original_expression)) + (hash(self._variable_name) % 1)", "order-analysis", False),
+    ("c18-id-in-repr", "C18", P + "derivative.py", "        return f\"Derivative({self._original_expression})\"", "        return f\"Derivative({self._original_expression})\" + str(id(self))[:0]", "order-analysis", True),
+]
